@@ -267,6 +267,8 @@ pub fn run_matrix(tier: &str, seed: u64, out: &mut Out) {
         "a ? l : [b]", "l[d].a", "[l[d], o[s]]", "{k: l[d]}", "f(a ? b : c)", "!(a ? b : c)", "l.length", "s.length",
         // script module members (their l-value paths name the module and the member)
         "a ? m.f : m.g", "m[s]", "a ? m.x : b", "m.o[s]", "(a ? m : o).x",
+        // compound expressions whose value is a list / object below the dependency (the tree handed on must be `true`)
+        "o && o.list", "(n || o).list", "o && o.b", "a && l",
     ];
     let configs: Vec<J> = vec![
         json!({"$o": {"a": 1, "b": "B", "c": "C", "d": 0, "n": null, "s": "a", "f": {"$fn": "ff"},
@@ -281,6 +283,7 @@ pub fn run_matrix(tier: &str, seed: u64, out: &mut Out) {
         (vec!["a"], json!("")), (vec!["a"], json!(7)), (vec!["b"], json!("B2")), (vec!["c"], json!("C2")),
         (vec!["d"], json!(2)), (vec!["d"], json!(0)), (vec!["n"], json!("N")), (vec!["n"], json!(null)),
         (vec!["s"], json!("b")), (vec!["o", "b", "x"], json!("deep2")), (vec!["o", "a"], json!({"$o": {"x": "oa2"}})),
+        (vec!["o", "list", "0", "a"], json!(9)), (vec!["o", "list", "0"], json!({"$o": {"a": 8, "x": "r"}})),
         (vec!["o", "list"], json!({"$a": [3, 4, 5]})), (vec!["o", "list"], json!({"$u": 1})),
     ];
     let list_steps: Vec<Vec<(Vec<&str>, J)>> = vec![
@@ -355,6 +358,14 @@ pub fn run_matrix(tier: &str, seed: u64, out: &mut Out) {
                     let p: Vec<String> = path.iter().map(|x| x.to_string()).collect();
                     trees.push(tree_of(&[p], 0));
                 }
+                // last: several fields at once under the whole-data mark `true`
+                set_path(&mut cur, &["a"], json!(3));
+                set_path(&mut cur, &["b"], json!("B9"));
+                set_path(&mut cur, &["c"], json!("C9"));
+                set_path(&mut cur, &["d"], json!(1));
+                set_path(&mut cur, &["s"], json!("x"));
+                datas.push(cur.clone());
+                trees.push(J::Bool(true));
                 let job = json!({
                     "kind": "behave", "id": format!("m{}", id), "src": src, "bundle": bundle, "path": "p", "max_level": max_level,
                     "datas": datas, "trees": trees,
